@@ -278,6 +278,11 @@ def _clause_holds(cx, site, accept, kill=True, assume=None, depth=2, start_held=
                 alts = expand_call_literal(cx, l)
                 if alts:
                     a = all(any(accept(x) for x in alt) for alt in alts)
+            if not a and l[0] in ("is", "in", "notin"):
+                # a value hidden behind a private straight-line helper / small selector (extract-function refactorings)
+                e2 = prog.inline_wrappers(l[1])
+                if e2 != l[1]:
+                    a = bool(accept((l[0], e2) + tuple(l[2:])))
             accepted[l] = a
         return a
 
